@@ -158,6 +158,10 @@ func (c *RPCClient) SendRequestAsync(ctx context.Context, addr string, req *tikv
 		case <-batchConn.closed:
 			cb.Invoke(nil, errors.New("batchConn closed"))
 		default:
+			if batchConn.isIdle() {
+				// the send loop exits when the conn becomes idle; it does not come back.
+				cb.Invoke(nil, errors.New("rpcClient is idle"))
+			}
 		}
 	case <-ctx.Done():
 		// will be fulfilled by the after callback of ctx.
